@@ -10,6 +10,7 @@ TRUSTED_BASE = [
     '(instantiated from the real C02 lemmas; tied to router.go by C02\'s check and, here, by comparing every per-delivery event trace); a GoChannel topic = '
     '"publication pending until one copy is Acked, fresh copy per attempt, one in flight, immediate redelivery" - PROVED to be what the composition of the registry model '
     'GoChannel/Reg.v with the send-loop model GoChannel/Sub.v does for an always-registered subscription (Pipeline/TopicRefine.v: step-for-step refinement); '
+    'the same topic interface is proved of the full composed GoChannel model GoChannel/Compose.v (Pipeline/ComposeRefine.v) for a subscription that is not cancelled while the Pub/Sub is open',
     'the product of k such topics with one Router step per delivered copy is PROVED to simulate Pipeline/Model.v (Pipeline/ProductProofs.v; safety transfers, liveness only as far as "finitely many Router steps"); the Router step is a macro step there (Publish of the outputs + settle atomic); Reg.v / Sub.v are tied to pubsub.go by the C04/C05/C07 schedule replay',
     'a delivery attempt is one atomic step of the model; the implementation\'s attempts are linearised by the order of handler entry (sound: the outputs of an attempt are '
     'accepted by the next topic after its handler was entered, and the next attempt of a stage starts after the previous copy was settled)',
@@ -111,6 +112,7 @@ def evaluate(pid, tag, data, res):
         res.count('gochannel=%s%s buffer=%s' % ('persistent' if c['persistent'] else 'plain', '+blocking' if c['blocking'] else '', '0' if c['buffer'] == 0 else 'n'))
         res.count('routers=%s' % ('one' if c['one_router'] else 'k'))
         if c.get('late_on_closed'): res.count('source publishes on the live topic-0 Pub/Sub after its Close (messages in flight downstream)', c['late_on_closed'])
+        if c.get('bystander', -1) >= 0 and not c['blocking']: res.count('with a bystander subscription on a pipeline topic (nacks once, cancels itself mid-run); it received %s' % ('0' if not c.get('bystander_got') else '1+'))
         if any(9 in row for row in c['fans']): res.count('with a passthrough handler (returns the consumed object)')
         nf = 0
         for d in c['log']:
